@@ -871,11 +871,21 @@ func generate(tier string, out *vlib.Out) {
 		"new treeset half\nadd 4\nadd 5\nadd 1\nexist 5\nexist 0\nexist 2\nkeys\ndelete 5\nexist 4\nkeys\ndelete 9\nkeys",
 		"new treemapof asc 5:50,1:10,9:90,3:30,7:70,2:20,8:80\nkeys\nvalues\nlen\nput 4 40\ndelete 5\nget 5\nkeys",
 		"new treemapof desc -\nkeys\nlen\nput 1 1\nkeys",
+		// keys of the Go map that are equal under the comparator (2~3, 6~7, -1~0~1 under `half`): putAll runs in
+		// map iteration order; the first key put and the last value put of a class survive (any order is legal)
+		"new treemapof half 2:10,3:11\nkeys\nvalues\nlen\nget 2\nget 3\nput 3 12\nkeys\nvalues",
+		"new treemapof half 6:1,2:2,7:3,3:4,4:5\nkeys\nvalues\nlen\ndelete 7\nkeys",
+		"new treemapof half -1:1,0:2,1:3,5:4\nkeys\nvalues\nlen",
 		"new treemap nil",
 		"new pubtree nil",
 		"new treeset nil",
 		"new linkedmap nil",
 		"new multimap nil",
+		// NewTreeMapWithMap must refuse a nil comparator too (empty, one-entry and larger maps: with one
+		// entry no comparator call is ever made, so an unguarded constructor would hand out a container)
+		"new treemapof nil -",
+		"new treemapof nil 1:10",
+		"new treemapof nil 2:20,1:10,3:30",
 		// delete shapes: red leaf, black leaf with red sibling subtree, node with two children (successor
 		// copy: key AND value move), root replacement, drain in both directions
 		"new rbtree asc\nadd 10 1\nadd 5 2\nadd 15 3\nadd 3 4\nadd 7 5\nadd 12 6\nadd 18 7\nadd 1 8\nadd 4 9\nadd 6 10\nadd 8 11\ndelete 10\nkvs\ndelete 5\nkvs\ndelete 1\ndelete 3\ndelete 4\ndelete 18\ndelete 15\ndelete 12\ndelete 8\ndelete 7\ndelete 6\nkvs\nsize",
@@ -941,7 +951,22 @@ func generate(tier string, out *vlib.Out) {
 			used[k] = true
 			ps = append(ps, fmt.Sprintf("%d:%d", k, g.next()))
 		}
-		out.Line("new treemapof %s %s", vlib.Pick(r, []string{"asc", "desc"}), strings.Join(ps, ","))
+		cmpName := vlib.Pick(r, []string{"asc", "desc"})
+		if n <= 5 && r.Chance(50) {
+			// few entries from a narrow range under `half`: some keys are equal under the comparator
+			cmpName = "half"
+			ps = ps[:0]
+			used = map[int]bool{}
+			for len(ps) < n {
+				k := r.Range(-2, 6)
+				if used[k] {
+					continue
+				}
+				used[k] = true
+				ps = append(ps, fmt.Sprintf("%d:%d", k, g.next()))
+			}
+		}
+		out.Line("new treemapof %s %s", cmpName, strings.Join(ps, ","))
 		g.kind = "treemap"
 		g.live = used
 		keys := universe(r, 40)
